@@ -31,6 +31,32 @@ pub fn add_globs_new_node(vx_self: &mut IgnoreFilter, applies_in_str: StrS, appl
         trie_ok(final(vx_self).ignores.m@), // OBL:C03+C14.add_globs.new_matcher_is_rooted_at_its_own_directory
         final(vx_self).ignores.m@.contains_key(applies_in),
         final(vx_self).origin == old(vx_self).origin,
+//@ item new_file_body
+//@ header
+// IgnoreFilter::new, per listed ignore file: its pattern lines are appended, in order, to the matcher of the directory it applies in (created, rooted
+// there, if that directory had none), and the recompiled matcher is stored under that directory - for EVERY file, whatever its patterns are
+pub fn new_file_body(file: IgnoreFile, content: ContentS, origin: PathS, ignores_trie: &mut TrieS) -> (r: Result<(), Error>)
+    requires trie_ok(old(ignores_trie).m@),
+    ensures
+        trie_ok(final(ignores_trie).m@), // OBL:C03+C14.new.matcher_is_rooted_at_its_own_directory
+        r is Ok ==> final(ignores_trie).m@.contains_key(applies_in_of(origin, &file)) && final(ignores_trie).m@[applies_in_of(origin, &file)].builder is Some
+            && matcher_lines(final(ignores_trie).m@[applies_in_of(origin, &file)].gitignore)
+                == prior_lines(old(ignores_trie).m@, applies_in_of(origin, &file)) + pattern_lines(content.lines@, content.lines@.len() as int)
+            && builder_lines(final(ignores_trie).m@[applies_in_of(origin, &file)].builder->Some_0) == matcher_lines(final(ignores_trie).m@[applies_in_of(origin, &file)].gitignore), // OBL:C03.new.every_listed_file_contributes_its_pattern_lines_in_order
+        forall|d: PathS| d != applies_in_of(origin, &file) ==> final(ignores_trie).m@.contains_key(d) == old(ignores_trie).m@.contains_key(d)
+            && (old(ignores_trie).m@.contains_key(d) ==> final(ignores_trie).m@[d] == old(ignores_trie).m@[d]), // OBL:C03+C14.new.other_matchers_untouched
+//@ prologue
+let ghost lines0 = prior_lines(ignores_trie.m@, applies_in_of(origin, &file));
+//@ epilogue
+Ok(())
+//@ loop over `content.lines()`
+invariant
+    0 <= $IT.pos@ <= $IT.v@.len(), $IT.v@ == content.lines@, ignores_trie.m == old(ignores_trie).m, trie_ok(ignores_trie.m@),
+    builder.root == applies_in, // OBL:C03+C14.new.matcher_is_rooted_at_its_own_directory
+    builder_lines(builder) == lines0 + pattern_lines(content.lines@, $IT.pos@), // OBL:C03.new.every_listed_file_contributes_its_pattern_lines_in_order
+ensures
+    $IT.pos@ == $IT.v@.len(),
+decreases $IT.v@.len() - $IT.pos@
 //@ item IgnoreFilter::recompile
 //@ header
     pub fn recompile(&mut self, file: &IgnoreFile) -> (r: Result<(), Error>)
